@@ -50,7 +50,7 @@ def run(tier):
             x += 1
     nmodel = len(P)
     # larger, seeded programs
-    nbig = 160 if thorough else 40
+    nbig = 4000 if thorough else 40
     for i in range(nbig):
         adf = rng.choice([2, 3, 7, 10, 10, 100, 0])
         eff = adf or 100
@@ -71,6 +71,13 @@ def run(tier):
         P.append(progs.anno_program(x, adf, tss, seeks, sig=sig, base=base, first_off=rng.choice([0, 3]) if sig else 0, rng=rng,
                                     payload_big=(thorough and i % 10 == 0) or i == 0, stops=stops))
         x += 1
+    # histories from the shape graph (spec/JlsShapes.tla): annotations on signal 0, on FSR and on VSR signals in every
+    # combination with the other tracks
+    import shapes
+    for q, model in shapes.programs(ck, rng, "c11-shape", thorough, 12000 if thorough else 500, x0=len(P)):
+        q["ops"] += shapes.reader_ops(rng, model, nreads=0)
+        q["model"] = progs.model_json(model)
+        P.append(q)
     trace, v, other = apicheck.run_api(ck, P, "c11", {"C11"})
     ck.cov["graph_states_replayed"] = nmodel
     ck.cov["distinct_nontrivial"] = sum(1 for l in open(trace) if l.startswith('{"e":"RdAnno"') and '"items":[]' not in l)
